@@ -365,6 +365,7 @@ def check(case, cc):
                and len(model['data'][-1]) == 1 and len(model['data'][-1][0]) == 1 and layout.get('leads') == [0] and layout.get('trails') == [0])
         cc.cls('layout:aligned-columns', bool(layout.get('aligned')))
         cc.cls('layout:line-longer-than-8192', max(layout['pads']) > 8000)
+        cc.cls('layout:preamble>=64-lines', int(layout.get('preamble') or 0) >= 64)
         cc.cls('wrapped-single-curve', wrap and ncurves == 1)
         if wrap and ncurves >= 3 and nframes >= 2 and info['comment_in_data'] > 0 and colon_value:
             nt = True
